@@ -177,6 +177,56 @@ def mutate2(source, index=None, kind=None, desc=None, ordinal=0):
     return new_src
 
 
+# ---- third family: the wrong variable / the wrong field (copy-paste slips) ---------------------------------------------
+def sites3(tree):
+    out = []
+    for cls in [None] + [n for n in tree.body if isinstance(n, ast.ClassDef)]:
+        funcs = [n for n in (tree.body if cls is None else cls.body) if isinstance(n, ast.FunctionDef)]
+        fields = []
+        if cls is not None:
+            for m in funcs:
+                if m.name == "__init__":
+                    for st in ast.walk(m):
+                        if isinstance(st, ast.Attribute) and isinstance(st.ctx, ast.Store) and isinstance(st.value, ast.Name) and st.value.id == "self" \
+                                and st.attr not in fields:
+                            fields.append(st.attr)
+        for fn in funcs:
+            params = [a.arg for a in fn.args.args if a.arg not in ("self", "cls")]
+            for n in ast.walk(fn):
+                if isinstance(n, ast.Name) and isinstance(n.ctx, ast.Load) and n.id in params and len(params) >= 2:
+                    other = params[(params.index(n.id) + 1) % len(params)]
+                    out.append(Site("wrongvar", n, "%s: `%s` (line %d col %d) replaced by the parameter `%s`" % (fn.name, n.id, n.lineno, n.col_offset, other)))
+                elif isinstance(n, ast.Attribute) and isinstance(n.ctx, ast.Load) and isinstance(n.value, ast.Name) and n.value.id == "self" \
+                        and n.attr in fields and len(fields) >= 2 and fn.name != "__init__":
+                    other = fields[(fields.index(n.attr) + 1) % len(fields)]
+                    out.append(Site("wrongfield", n, "%s: `self.%s` (line %d col %d) replaced by `self.%s`" % (fn.name, n.attr, n.lineno, n.col_offset, other)))
+    return out
+
+
+def mutate3(source, index=None, kind=None, desc=None, ordinal=0):
+    tree = ast.parse(source)
+    ss = sites3(tree)
+    if index is None:
+        cand = [i for i, s_ in enumerate(ss) if s_.kind == kind and s_.desc == desc]
+        if ordinal >= len(cand):
+            return None
+        index = cand[ordinal]
+    if index >= len(ss):
+        return None
+    s = ss[index]
+    new = s.desc.rsplit("`", 2)[-2]
+    if s.kind == "wrongvar":
+        s.node.id = new
+    else:
+        s.node.attr = new[5:]
+    try:
+        new_src = ast.unparse(tree)
+        compile(new_src, "<mutant>", "exec")
+    except Exception:
+        return None
+    return new_src
+
+
 def mutate(source, index=None, kind=None, desc=None, ordinal=0):
     """-> mutated source (ast.unparse of the whole module) for the site given by its index, or by (kind, desc, ordinal among the
     sites with that kind and description); None when the site is absent or the result does not compile"""
